@@ -59,6 +59,28 @@ class PybindWrapper:
             "svg", "png", "jpeg", "html", "javascript", "markdown", "latex"
         ]
 
+    @staticmethod
+    def _cpp_string_escape(text):
+        """
+        Escape `text` for use between double quotes in (UTF-8 encoded) C++ source.
+
+        Control characters and Unicode line separators become octal escapes of
+        their UTF-8 bytes (at most three digits each, so they cannot absorb a
+        following character the way `\\x` escapes do); everything else, including
+        other non-ASCII text, is written as is.
+        """
+        simple = {'\\': '\\\\', '"': '\\"', '\n': '\\n', '\t': '\\t', '\r': '\\r'}
+        escaped = []
+        for char in text:
+            if char in simple:
+                escaped.append(simple[char])
+            elif ord(char) < 0x20 or 0x7f <= ord(char) <= 0x9f or char in '\u2028\u2029':
+                escaped.extend('\\{:03o}'.format(byte)
+                               for byte in char.encode('UTF-8'))
+            else:
+                escaped.append(char)
+        return ''.join(escaped)
+
     def _py_args_names(self, args):
         """Set the argument names in Pybind11 format."""
         names = args.names()
@@ -277,9 +299,8 @@ class PybindWrapper:
                    suffix=suffix,
                    # Try to get the function's docstring from the Doxygen XML.
                    # If extract_docstring errors or fails to find a docstring, it just prints a warning.
-                   # The incantation repr(...)[1:-1].replace('"', r'\"') replaces newlines with \n 
-                   # and " with \" so that the docstring can be put into a C++ string on a single line.
-                   docstring=', "' + repr(self.xml_parser.extract_docstring(self.xml_source, cpp_class, cpp_method, method.args.names()))[1:-1].replace('"', r'\"') + '"' 
+                   # The docstring is escaped so that it can be put into a C++ string on a single line.
+                   docstring=', "' + self._cpp_string_escape(self.xml_parser.extract_docstring(self.xml_source, cpp_class, cpp_method, method.args.names())) + '"'
                        if self.xml_source != "" else "",
                ))
 
